@@ -103,7 +103,29 @@ pub fn gen_pair(ch: &mut Chooser) -> Pair {
     let mut schedule = vec![];
     // scripted openings: the situations in which per-thread or per-process state would be confused
     let mut forced_probes: Vec<usize> = vec![];
-    match ch.below(17) {
+    match ch.below(19) {
+        18 => {
+            // A evaluates one form with several thousand uses of bundled macros; an instance is created right after it
+            let n = 4200 + ch.below(1500);
+            let big: String = format!("@nobudget:(begin {} 'done)", "(when #t 1) ".repeat(n));
+            a.insert(0, big);
+            b.insert(0, "(let ((q 1)) (cond ((= q 1) (when #t (+ q 1))) (else 0)))".to_string());
+            schedule.extend([true, false]);
+            forced_probes.push(1);
+            ia = 1;
+            ib = 1;
+            labels.push("a-expands-thousands-of-macro-uses-in-one-form");
+        }
+        17 => {
+            // A fails to import a library it has no file for; B then runs a program file whose directory holds that library
+            a.insert(0, "(import (onlya util))".to_string());
+            b.insert(0, "@file".to_string());
+            schedule.extend([true, false]);
+            ia = 1;
+            ib = 1;
+            labels.push("a-fails");
+            labels.push("b-runs-a-program-file");
+        }
         16 => {
             // B defines a macro under a name that A (or the bundled library source, read again for every new instance) uses
             // as the name of an ordinary procedure / parameter; B's next use of its macro follows A's call or the creation
@@ -449,6 +471,18 @@ pub fn judge(p: &Pair) -> Report {
     }
     if !rep.fails.is_empty() {
         return rep;
+    }
+    // what B's program file computes is known by construction (its library's `answer` is 7): a reference run that is
+    // itself disturbed by what other instances of this process did earlier must not pass as "the same"
+    for (i, f) in p.b.iter().enumerate() {
+        if f == "@file" {
+            if let Some(x) = alone.get(i) {
+                if !matches!(x, Outcome::Value(v) if v.equiv(&crate::sut::SVal::int(8))) {
+                    rep.fail("instance-interference:reference-run-disturbed", format!("B alone: the program file step gave {} instead of 8", x.show()));
+                    return rep;
+                }
+            }
+        }
     }
     for (i, (x, y)) in alone.iter().zip(inter.b.iter()).enumerate() {
         if !same(x, y) {
